@@ -12,7 +12,7 @@ func init() {
 	register(&CheckDef{
 		ID:    "C03",
 		Level: "exploration",
-		Rule:  "seeded generation of SQLite WAL programs on a primary: write transactions of any number of frames with repeated pages, split frame-header writes, rolled-back frames later overwritten, log restarts with new salts after application checkpoints (PASSIVE/FULL/RESTART/TRUNCATE) and LiteFS's own checkpoints, growth and shrink incl. across 256-page blocks, both checksum byte orders, all page sizes, several connections taking turns, connection close/reopen and last-connection close; after every release of the WAL write lock the position, the new LTX file (pages, size, WAL offset/size/salts) and the image are compared with the simulated SQLite side; a case is one executed operation; distinct = distinct (pagesize, operation, outcome, grow/shrink/same, repeat, new-log, byte order, cross-256) tuple; non-trivial = run with at least one captured WAL commit",
+		Rule:  "seeded generation of SQLite WAL programs on a primary: write transactions of any number of frames with repeated pages, split frame-header writes, rolled-back frames later overwritten, log restarts with new salts after application checkpoints (PASSIVE/FULL/RESTART/TRUNCATE) and LiteFS's own checkpoints, growth and shrink incl. across 256-page blocks, both checksum byte orders, all page sizes, several connections taking turns, connection close/reopen and last-connection close, death of the writing process between publishing a commit and releasing the write lock (descriptors closed in opening order); after every release of the WAL write lock the position, the new LTX file (pages, size, WAL offset/size/salts) and the image are compared with the simulated SQLite side; a case is one executed operation; distinct = distinct (pagesize, operation, outcome, grow/shrink/same, repeat, new-log, byte order, cross-256) tuple; non-trivial = run with at least one captured WAL commit",
 		Run:   runC03,
 		NonTrivial: func(r *Run) bool {
 			return r.Stats["c03.commit.checked"] > 0
@@ -125,7 +125,24 @@ func runC03(r *Run) {
 		switch kind {
 		case 0: // write transaction
 			prog := GenWalProgram(t, ref.N(), maxPages)
+			// now and then the writing process is killed between publishing its
+			// commit and releasing the write lock: the close of its descriptors
+			// releases the lock, and that release has to capture the transaction
+			died := prog.Outcome == OutCommit && t.Chance(1, 12)
+			prog.DieBeforeUnlock = died
 			res = c.WalWriteTx(prog, ref)
+			if died {
+				r.Count("c03.writer-died-before-unlock")
+				if e := c.Open(); e != 0 {
+					r.Failf("c03.open", "reopen after the writer's death: %v", e)
+					return
+				}
+				if e := c.WalOpen(); e != 0 {
+					r.Failf("c03.open", "wal reopen after the writer's death: %v", e)
+					return
+				}
+				c.wal.bigEnd = t.Chance(1, 4)
+			}
 			cur := ref.N()
 			shape := "same"
 			if prog.NewSize > cur {
